@@ -4,6 +4,11 @@
 // result the same goroutine obtains when it runs alone.  Private values are built
 // in place (newObj) or derived from shared templates by Copy / CopyTo (derived.go);
 // for the latter each goroutine also checks that they hold what it stored itself.
+// Third population (scratch.go): read operations that REUSE the goroutine's scratch
+// state - one key buffer for all Loop calls, one result buffer for all GetTo calls,
+// one bool, one int, one ByteBuffer - across string-keyed maps, numeric-keyed maps and
+// slices of the same shared values.  Every shared value of the run must be, after the
+// goroutines have finished, what it was before they started.
 // RACERUN_TRACE=1 prints every goroutine's calls and results (the run alone).
 //
 //	racerun <seed> <goroutines> <ops-per-goroutine>
@@ -72,9 +77,10 @@ func work(seed int64, gid, nops int, written func()) ([]string, []string) {
 	var lbuf []byte
 	out := make([]string, 0, nops+1)
 	ds := &derivedState{}
+	sc := newScratch(gid)
 	for k := 0; k < nops; k++ {
 		var res string
-		switch r.Intn(20) {
+		switch r.Intn(23) {
 		case 0, 1, 2:
 			v, err := objIns.Get(shared, getPaths[r.Intn(len(getPaths))]...)
 			res = "get " + emit.DumpDeref(reflect.ValueOf(v)) + " " + fmt.Sprint(err)
@@ -145,21 +151,25 @@ func work(seed int64, gid, nops int, written func()) ([]string, []string) {
 			ok := inspector.Assign(&d, strconv.Itoa(r.Intn(1000)))
 			ok2 := inspector.AssignBuf(&s, r.Intn(1000), pbuf)
 			res = fmt.Sprint("assign ", d, s, ok, ok2)
-		default:
+		case 16, 17, 18, 19:
 			// private values derived from shared ones (derived.go)
 			res = ds.step(r)
+		default:
+			// read operations on shared values with the goroutine's reused scratch state (scratch.go)
+			res = sc.step(r)
 		}
 		out = append(out, res)
 	}
 	written()
-	out = append(out, ds.final())
-	return out, ds.bad
+	out = append(out, ds.final(), sc.final())
+	return out, append(ds.bad, sc.bad...)
 }
 
 func main() {
 	seed, _ := strconv.ParseInt(os.Args[1], 10, 64)
 	g, _ := strconv.Atoi(os.Args[2])
 	nops, _ := strconv.Atoi(os.Args[3])
+	registerShared()
 	conc := make([][]string, g)
 	bad := make([][]string, g)
 	var wg, writers sync.WaitGroup
@@ -175,8 +185,13 @@ func main() {
 	}
 	close(start)
 	wg.Wait()
+	// read operations leave a value unchanged: every shared value is what it was before the goroutines started
+	changed := sharedChanged("after the concurrent run")
 	mism, foreign := 0, 0
 	first := ""
+	if len(changed) > 0 {
+		first = changed[0]
+	}
 	for i := 0; i < g; i++ {
 		alone, badAlone := work(seed, i, nops, func() {})
 		if os.Getenv("RACERUN_TRACE") != "" {
@@ -199,8 +214,13 @@ func main() {
 			}
 		}
 	}
-	fmt.Printf("calls=%d mismatches=%d not-as-stored=%d %s\n", g*(nops+1), mism, foreign, first)
-	if mism > 0 || foreign > 0 {
+	// ... and the runs alone (the reference of the comparison) have left them unchanged as well
+	changed = append(changed, sharedChanged("after the runs alone")...)
+	if first == "" && len(changed) > 0 {
+		first = changed[0]
+	}
+	fmt.Printf("calls=%d mismatches=%d not-as-stored=%d shared-values-changed=%d %s\n", g*(nops+2), mism, foreign, len(changed), first)
+	if mism > 0 || foreign > 0 || len(changed) > 0 {
 		os.Exit(3)
 	}
 }
